@@ -29,7 +29,7 @@ type Lit struct {
 }
 
 type Expr struct {
-	K    string  `json:"k"` // int | str | var | bin | cmp | asg | tmpl | arr | par | call (Name(Arr...))
+	K    string  `json:"k"` // int | str | var | bin | cmp | asg | tmpl | arr | par | call (Name(Arr...)) | push (Name.push(R), in place)
 	N    int64   `json:"n,omitempty"`
 	S    *Lit    `json:"s,omitempty"`
 	D    int     `json:"d,omitempty"` // delimiter of a str literal (0 or 1)
@@ -206,6 +206,10 @@ func (p *printer) expr(e *Expr, min int) {
 		// blanks are legal after '(' but not before ')' (after a number the grammar has no sp slot there)
 		p.w("(" + e.Sp)
 		p.expr(e.L, 0)
+		p.w(")")
+	case "push":
+		p.w(e.Name + ".push(")
+		p.expr(e.R, precCmp)
 		p.w(")")
 	case "call":
 		p.w(e.Name + "(")
@@ -430,6 +434,9 @@ type Val struct {
 	I int64
 	S string
 	A []int64
+	// id: which array object this is (arrays are references: v1 = w2 makes both names one array, a push through either
+	// is seen through both); 0 for a value that is not an array object of the evaluator
+	id int
 }
 
 func (v Val) String() string {
@@ -488,6 +495,7 @@ type evaluator struct {
 	funcsInHole, loopsInHole int
 	// ctl: 1 after a break, 2 after a continue, until the enclosing loop takes it; jumps: how many were taken
 	ctl, jumps, loopDepth int
+	nextID, pushes         int
 	// statistics for the non-triviality rule
 	holes     int
 	maxDepth  int
@@ -628,8 +636,30 @@ func (ev *evaluator) expr(e *Expr) (Val, error) {
 			return Val{}, errInvalid
 		}
 		return callee.expr(fn.Body)
+	case "push":
+		cur, ok := ev.env[e.Name]
+		if !ok || cur.K != 'a' || cur.id == 0 {
+			return Val{}, errInvalid
+		}
+		x, err := ev.expr(e.R)
+		if err != nil {
+			return Val{}, err
+		}
+		if x.K != 'i' || len(cur.A) >= 40 {
+			return Val{}, errInvalid
+		}
+		grown := append(append([]int64{}, cur.A...), x.I)
+		for k, w := range ev.env { // every name of this array object sees the new element
+			if w.K == 'a' && w.id == cur.id {
+				w.A = grown
+				ev.env[k] = w
+			}
+		}
+		ev.pushes++
+		return Val{K: 'a', A: grown, id: cur.id}, nil
 	case "arr":
-		out := Val{K: 'a', A: []int64{}}
+		ev.nextID++
+		out := Val{K: 'a', A: []int64{}, id: ev.nextID}
 		for _, x := range e.Arr {
 			v, err := ev.expr(x)
 			if err != nil {
@@ -952,6 +982,11 @@ func (g *gen) strExpr(depth int) *Expr {
 func (g *gen) arrExpr() *Expr {
 	g.budget--
 	vars := g.definedOf(arrVars)
+	if len(vars) > 0 && rapid.IntRange(0, 4).Draw(g.t, "apush") == 0 {
+		// in-place growth: the array object changes for every name and every later hole that shows it, not for
+		// the text of a hole that has already ended
+		return &Expr{K: "push", Name: rapid.SampledFrom(vars).Draw(g.t, "pvar"), R: g.intExpr(1)}
+	}
 	if len(vars) > 0 && rapid.IntRange(0, 2).Draw(g.t, "ak") == 0 {
 		return &Expr{K: "var", Name: rapid.SampledFrom(vars).Draw(g.t, "avar")}
 	}
